@@ -716,3 +716,7 @@ seed("c17-norm-inf-nan-skipped-cmplx", "C17", "src/vector/vec_cmplx.rs", "      
 seed("c15-norm-inf-nan-wrong-operand", "C15", "src/vector/vec_f64.rs", "            if a.is_nan() || result < a {", "            if result.is_nan() || result < a {", "abs-norms/norm_inf/f64", "tests the accumulator, not the candidate: a NaN candidate is still skipped")
 seed("c04-zero-pivot-unguarded", "C04", BD, "                dum = if au[(k, 0)] == T::zero() { T::zero() } else { au[(i, 0)] / au[(k, 0)] };", "                dum = au[(i, 0)] / au[(k, 0)];", "zero-pivot/decompose", "the original defect")
 seed("c04-zero-pivot-guard-wrong-element", "C04", BD, "                dum = if au[(k, 0)] == T::zero() { T::zero() } else { au[(i, 0)] / au[(k, 0)] };", "                dum = if au[(i, 0)] == T::zero() { T::zero() } else { au[(i, 0)] / au[(k, 0)] };", "zero-pivot/decompose", "tests the numerator")
+seed("c20-xsection-guard-removed", "C20", ME2, '        if nodex >= self.nx { panic!( "Mesh2D error: cross_section_xnode range error." ); }\n', "", "reject-via/mesh2d::Mesh2D<T>::cross_section_xnode", "the original defect")
+seed("c20-xsection-guard-wrong-dim", "C20", ME2, '        if nodex >= self.nx { panic!( "Mesh2D error: cross_section_xnode range error." ); }', '        if nodex >= self.ny { panic!( "Mesh2D error: cross_section_xnode range error." ); }', "reject-via/mesh2d::Mesh2D<T>::cross_section_xnode")
+seed("c20-trapezium-var-guard-removed", "C20", ME2, '        if var >= self.nvars { panic!( "Mesh2D trapezium: index larger than # variables." ); }\n', "", "reject/mesh2d::Mesh2D<f64>::trapezium/var", "the original defect")
+seed("c20-mesh1d-trapezium-var-guard-removed", "C20", "src/mesh1d.rs", '        if var >= self.nvars { panic!( "Mesh1D trapezium: index larger than # variables." ); }\n', "", "reject/mesh1d::Mesh1D<f64, f64>::trapezium/var", "the original defect")
